@@ -604,9 +604,6 @@ func (a *act) intrinsic(name string, fn *ssa.Function, args []Val, rtyp types.Ty
 		return one(app(SStr, "str.upper", t(0)))
 	case "strings.Index":
 		return one(app(SInt, "str.index", t(0), t(1)))
-	case "utf8.RuneLen":
-		log.declFun("rune.len8", []Sort{SInt}, SInt)
-		return one(app(SInt, "rune.len8", t(0)))
 	case "go2.Min", "go2.Max":
 		op := "imin"
 		if name == "go2.Max" {
